@@ -26,10 +26,10 @@ from vf.core import Outcome, h12
 
 PROPERTY = "C09"
 
-#: The supported fragment = what the generator emits.  Widened construct by construct while the tree stayed green
-#: (apart from the list-store defect, see the module docstring of the proposed fix).
-FEATURES = ("arith", "if", "while", "call", "nested-call", "global", "attr", "list", "computed-index", "alias",
-            "early-return", "obj-param", "list-param")
+#: The supported fragment = what the generator emits.  It was widened construct by construct, in this order, while the
+#: tree (with the two proposed C09 fixes) stayed green; see META["rule"] for what is demanded per construct.
+FEATURES = ("arith", "if", "while", "call", "nested-call", "global", "attr", "alias", "obj-param", "early-return", "list",
+            "computed-index", "list-param")
 
 META = {
     "title": "Dynamic slices are sound and checked lines were executed",
@@ -38,28 +38,39 @@ META = {
                  "oracles: sys.monitoring ground truth of the uninstrumented run and an independent dynamic-dependence interpreter "
                  "of the same model (vf/oracle/dyndep.py)",
     "design_ref": "DESIGN.md §3 C09",
-    "rule": "case = module of the mini-language {int locals and parameters, + - *, six comparisons, if/else, fuel-bounded while "
-            "(dedicated counter, bound literal 0..3 or (expr) % 4, nested up to depth 2), calls to 0..2 helper functions of the same "
-            "module (also nested in expressions and helper->helper), reads of two module-level int globals, one prelude class Box "
-            "with attribute get/set on fields v/w, 3-element lists with constant and computed ((expr) % 3) subscripts for load and "
-            "store, aliases of objects/lists, early `return` at the end of an if-branch (also inside loops), helpers that receive a "
-            "Box or a list and read/mutate it}, rendered one statement per line, + two int arguments of `var_0 = sut.f(a0, a1)`; "
-            "mode statement (criterion = store of var_0) or assertion (`assert var_0 == value` sliced as well). "
+    "rule": "case = module of the mini-language {int locals and parameters; + - *; six comparisons; if / if-else; fuel-bounded while "
+            "(dedicated counter, bound literal 0..3 or (expr) % 4, nested up to depth 2); calls to 0..2 helper functions of the same "
+            "module (as operands anywhere in expressions, nested in arguments, helper->helper); reads of two module-level int globals; "
+            "one prelude class Box with attribute get/set on fields v/w; 3-element lists with constant and computed ((expr) % 3) "
+            "subscripts for load and store; aliases `o1 = o0` / `l1 = l0`; early `return` at the end of an if-branch (also inside "
+            "loops); helpers that receive a Box or a list and read/mutate it}, rendered one statement per line, + two int arguments of "
+            "`var_0 = sut.f(a0, a1)`; mode statement (criterion = store of var_0) or assertion (`assert var_0 == value` sliced as well). "
             "Oracles per case: (1) every checked line was executed (sys.monitoring, instruction-level upper bracket, import included); "
             "(2) DynamicSlicer.slice contains its criterion and only instructions that were executed no later than the criterion "
             "(trace entry with the same (code object, node, index), or - for instruction kinds that are never traced - an "
             "INSTRUCTION event with the same (line, opname)); (3) lines in the dynamic data+control dependence closure of the "
-            "returned value (instance based, Korel-Laski; loop-exit evaluations not demanded) ⊆ checked lines. "
-            "Non-trivial = oracle closure has >= 3 lines and >= 1 executed line of a function body is outside it; distinct by model+arguments",
+            "returned value ⊆ checked lines of every pipeline (observer, direct slice, assertion slice). Closure: instance based "
+            "(Korel-Laski): operands -> last defining instance (locals, parameters -> argument expressions + call line, globals -> "
+            "module-level assignment, attribute / list cells -> last store into that cell of that object, subscript loads -> also the "
+            "definition of the list variable, call results -> callee return instance + def/class line of the callee); control -> "
+            "if-predicate instance of the branch taken, k-th while-header evaluation for the k-th iteration and the (k+1)-th "
+            "evaluation, call line for the callee's statements, predicate of an if/while containing a return for what follows it. "
+            "NOT demanded (calibrated on the unchanged tree): loop-exit evaluations; the definition of the variable through which the "
+            "object of an attribute access or of a store is reached (`o1 = o0` for `o1.v`, `l1 = l0` for `l1[0] = e`): pynguin's "
+            "stack simulation documents that it does not search those uses - counted as `observed:` labels instead; the `def "
+            "__init__` line. "
+            "Non-trivial = closure has >= 3 lines and >= 1 executed line of a function body is outside it; distinct by model+arguments+mode",
     "assumptions": ["the module compiles to the same bytecode in the harness (compile(..., dont_inherit=True)) and in pynguin's import hook",
                     "the interpreter's semantics of the mini-language equals Python's: cross-checked per case (returned value and "
                     "executed line set must equal the uninstrumented run, otherwise the harness aborts with exit 2)",
                     "the oracle demands a lower bound only: a callee's statements depend on the call line, not on argument "
-                    "expressions they do not read; the implicit lookup of __init__ is not demanded"],
+                    "expressions they do not read; heap cells are tracked per object and field/index",
+                    "cases are evaluated one after the other in a forked worker process (recycled every 40 cases, replaced after a "
+                    "crash or hang), each with its own session and a unique module name"],
     "level_text": "Generated programs of a fixed language fragment through the real slicing pipeline, against an interpreter-computed "
                   "dependence closure and sys.monitoring ground truth. Soundness is relative to the fragment; outside it only (1) and (2) "
                   "would apply. Exploration, not proof.",
-    "level_note": "Trusted: vf.session wiring equals generator._run for CHECKED; CPython's sys.monitoring; the 300-line interpreter.",
+    "level_note": "Trusted: vf.session wiring equals generator._run for CHECKED; CPython's sys.monitoring; the 350-line interpreter.",
 }
 PLAN = {
     "quick": {"shards": 16, "examples": 160, "timeout": 1500, "features": list(FEATURES),
@@ -382,7 +393,10 @@ def _child(case: dict[str, Any]) -> dict[str, Any]:
             if result.timeout:
                 return {"inconclusive": "test execution timed out"}
             if result.exceptions:
-                raise HarnessError(f"generated program raised {result.exceptions!r}\n{lay['source']}")
+                # the uninstrumented run above returned normally: the exception comes from the instrumented execution
+                kinds = "+".join(sorted({type(e).__name__ for e in result.exceptions.values()}))
+                return {"fails": [[f"instrumented-run-raised|{kinds}", f"{result.exceptions!r}\n{lay['source']}"]],
+                        "aborted": True}
             trace = result.execution_trace
             executed = trace.executed_instructions
 
@@ -404,23 +418,31 @@ def _child(case: dict[str, Any]) -> dict[str, Any]:
                 raise HarnessError(f"expected one store of var_0 in the trace, found {len(stores)}")
             slicer = DynamicSlicer(sp.existing_code_objects)
             own = slicer.slice(trace, SlicingCriterion(stores[0]))
-            res["fails"] += _wellformed(own, executed, stores[0], path, truth["pairs"], "statement")
+            res["fails"] += _wellformed(own, executed, stores[0], path, truth["pairs"], "direct")
             res["checked"]["direct"] = line_numbers(DynamicSlicer.map_instructions_to_lines(own, sp))
             res["trace_len"] = len(executed)
             res["slice_len"] = len(own)
             if case["mode"] == "assertion":
                 if len(trace.executed_assertions) != 1:
-                    raise HarnessError(f"expected one executed assertion, found {len(trace.executed_assertions)}")
-                ea = trace.executed_assertions[0]
-                pos = ea.trace_position
-                if not (pos > stores[0] and executed[pos].file == AST_FILENAME and executed[pos].name.startswith("POP_JUMP")):
-                    res["fails"].append(["assertion|position-is-not-the-assert-jump", f"{pos}: {executed[pos]}"])
-                compute_assertion_checked_coverage(trace, sp)  # fills assertion.checked_instructions
-                instrs = list(ea.assertion.checked_instructions)
-                res["fails"] += _wellformed(instrs, executed, pos, path, truth["pairs"], "assertion")
-                res["checked"]["assertion"] = line_numbers(DynamicSlicer.map_instructions_to_lines(instrs, sp))
+                    res["fails"].append(["assertion|not-recorded-exactly-once",
+                                         f"{len(trace.executed_assertions)} executed assertions for one passing assert"])
+                else:
+                    ea = trace.executed_assertions[0]
+                    pos = ea.trace_position
+                    if not (pos > stores[0] and executed[pos].file == AST_FILENAME
+                            and executed[pos].name.startswith("POP_JUMP")):
+                        res["fails"].append(["assertion|position-is-not-the-assert-jump", f"{pos}: {executed[pos]}"])
+                    compute_assertion_checked_coverage(trace, sp)  # fills assertion.checked_instructions
+                    instrs = list(ea.assertion.checked_instructions)
+                    res["fails"] += _wellformed(instrs, executed, pos, path, truth["pairs"], "assertion")
+                    res["checked"]["assertion"] = line_numbers(DynamicSlicer.map_instructions_to_lines(instrs, sp))
         for what, lines in res["checked"].items():
             res["first_missing"][what] = [list(x) for x in dyndep.first_missing(oracle, set(lines))]
+        # not a verdict, only counted: what the stricter reading (definition of the variable through which an object is
+        # reached) would additionally demand
+        strict = dyndep.interpret(model, lay, object_var_deps=True)
+        res["strict_missing"] = [list(x) for x in dyndep.first_missing(strict, set(res["checked"]["statement"]) | (
+            set(oracle["deps"]) - set(res["checked"]["statement"])))]
         return res
     finally:
         shutil.rmtree(scratch, ignore_errors=True)
@@ -517,18 +539,29 @@ def _analyse(case: dict[str, Any], res: dict[str, Any], out: Outcome) -> None:
         return
     for sig, detail in res["fails"]:
         out.fail(sig, f"{detail}\ncase={case}")
+    if res.get("aborted"):
+        return
     hi = set(res["hi"])
     deps = set(res["oracle"]["deps"])
+    pipelines = sorted(res["checked"])
+    missing: dict[tuple[int, str, str], list[str]] = {}
     for what, lines in res["checked"].items():
         stray = sorted(set(lines) - hi)
         if stray:
             out.fail(f"checked-not-executed|{what}", f"checked lines {stray} were not executed (executed: {sorted(hi)})\ncase={case}")
         for line, typ, kind in res["first_missing"][what]:
-            out.fail(f"unsound|{what}|{typ}|{kind}",
-                     f"line {line} ({kind}) is a {typ} dependence of the returned value but not checked; "
-                     f"oracle={sorted(deps)} checked={lines}\ncase={case}")
+            missing.setdefault((line, typ, kind), []).append(what)
         if not res["first_missing"][what] and deps - set(lines):
             raise HarnessError(f"missing lines {sorted(deps - set(lines))} without a frontier")
+    for (line, typ, kind), whats in sorted(missing.items()):
+        # one bucket per (dependence type, kind of the missing statement); the pipeline is part of the bucket only
+        # when the pipelines disagree (e.g. only the observer's criterion is off)
+        where = "" if sorted(whats) == pipelines else "only-" + "+".join(sorted(whats)) + "|"
+        out.fail(f"unsound|{where}{typ}|{kind}",
+                 f"line {line} ({kind}) is a {typ} dependence of the returned value but not in the checked lines of "
+                 f"{sorted(whats)}; oracle={sorted(deps)} checked={res['checked']}\ncase={case}")
+    for typ, kind in sorted({(t, k) for _l, t, k in res.get("strict_missing", [])}):
+        out.labels.append(f"observed:base-variable-definition-not-checked({kind})")
     stats = res["oracle"]["stats"]
     body = set(res["body_lines"])
     outside = body - deps
